@@ -5,9 +5,11 @@ from collections import Counter
 ROOT = os.path.dirname(os.path.dirname(os.path.abspath(__file__)))
 g = sys.argv[1]; cases = sys.argv[2] if len(sys.argv) > 2 else "300"; seed = sys.argv[3] if len(sys.argv) > 3 else "1"
 tier = sys.argv[4] if len(sys.argv) > 4 else "quick"
-out = os.path.join(ROOT, ".run", "dev-" + g)
-subprocess.run(["cargo", "build", "--release", "--offline"], cwd=os.path.join(ROOT, "harness"), stdout=subprocess.DEVNULL, stderr=subprocess.DEVNULL)
-r = subprocess.run([os.path.join(ROOT, "harness/target/release/vharness"), g, "--seed", seed, "--cases", cases, "--tier", tier, "--out", out])
+# VH_DIR: an alternative harness crate (a scratch copy built against a scratch copy of the repository)
+HDIR = os.environ.get("VH_DIR", os.path.join(ROOT, "harness"))
+out = os.path.join(ROOT, ".run", "dev-" + g) if "VH_DIR" not in os.environ else os.path.join(HDIR, "out-" + g)
+subprocess.run(["cargo", "build", "--release", "--offline"], cwd=HDIR, stdout=subprocess.DEVNULL, stderr=subprocess.DEVNULL)
+r = subprocess.run([os.path.join(HDIR, "target/release/vharness"), g, "--seed", seed, "--cases", cases, "--tier", tier, "--out", out])
 if r.returncode != 0:
     print("harness rc", r.returncode); print(open(out + "/progress.txt").read()[:2000]); sys.exit(1)
 lines = [l.rstrip("\n") for l in open(out + "/trace.txt")]
